@@ -8,7 +8,9 @@ stdin : JSON list of jobs
     "dirs": ["w/other", ...]                  extra (empty) directories
     "cwd": "w/proj"                           process cwd for the compile (relative to the root)
     "target": "main.jmc" | "{ROOT}/w/proj/main.jmc" | ...    the string given to PyJMC
-    "globs": ["w/proj/sub", ...]}             directories whose glob("**/*.jmc") order is reported
+    "globs": ["w/proj/sub", ...]}             directories whose glob("**/*.jmc") order is reported (round 4: besides EVERY folder
+                                              found below the root, "" = the root itself; FILES only; "nodes" = [[path, "f"|"d"], ...]
+                                              = every file and folder below the root, as found on disk before the compile)
    or {"seq": [job, job, ...]}                 strengthening round 2: successive states of ONE project folder (same temp root), each
                                               compiled in turn in this process; the folder is edited in place between the compiles
                                               (files added / deleted / rewritten, untouched files keep inode and mtime) -> {"seq": [result, ...]}
@@ -73,6 +75,25 @@ def rel(root, p):
     return "<outside>" + p
 
 
+def survey(root, wanted):
+    """round 4: the directory tree as it is on disk -> (nodes, globs): every file / folder below the root, and for every folder
+    (and every path asked for) the .jmc FILES Path.glob("**/*.jmc") lists below it, in the order the OS gives them (None: no folder)"""
+    nodes, dirs = [["", "d"]], [""]
+    for cur, dnames, fnames in os.walk(root):
+        r = os.path.relpath(cur, root)
+        r = "" if r == "." else r
+        for d in dnames:
+            nodes.append([(r + "/" if r else "") + d, "d"])
+            dirs.append((r + "/" if r else "") + d)
+        for f in fnames:
+            nodes.append([(r + "/" if r else "") + f, "f"])
+    globs = {}
+    for d in dirs + [w for w in wanted if w not in dirs]:
+        dd = Path(root) / d if d else Path(root)
+        globs[d] = [rel(root, str(q)) for q in dd.glob("**/*.jmc") if q.is_file()] if dd.is_dir() else None
+    return nodes, globs
+
+
 def run_job(job, PyJMC, jmc_excs):
     root = os.path.realpath(tempfile.mkdtemp(prefix="c17_"))
     old_cwd = os.getcwd()
@@ -85,11 +106,8 @@ def run_job(job, PyJMC, jmc_excs):
             os.makedirs(os.path.dirname(full), exist_ok=True)
             with _real_open(full, "w", encoding="utf-8") as f:
                 f.write(text.replace("{ROOT}", root))
-        globs = {}
-        for d in job.get("globs", []):
-            dd = Path(root) / d
-            globs[d] = [rel(root, str(q)) for q in dd.glob("**/*.jmc")] if dd.is_dir() else None
         os.makedirs(os.path.join(root, job["cwd"]), exist_ok=True)
+        nodes, globs = survey(root, job.get("globs", []))
         os.chdir(os.path.join(root, job["cwd"]))
         del OPENS[:]
         signal.alarm(int(job.get("timeout", 20)))
@@ -112,6 +130,7 @@ def run_job(job, PyJMC, jmc_excs):
             signal.alarm(0)
         res["opens"] = [rel(root, p) for p in OPENS]
         res["globs"] = globs
+        res["nodes"] = nodes
     finally:
         os.chdir(old_cwd)
         shutil.rmtree(root, ignore_errors=True)
@@ -158,11 +177,8 @@ def run_seq(seq, PyJMC, jmc_excs):
             res = {}
             os.chdir(root)
             prev = sync_tree(root, job, prev)
-            globs = {}
-            for d in job.get("globs", []):
-                dd = Path(root) / d
-                globs[d] = [rel(root, str(q)) for q in dd.glob("**/*.jmc")] if dd.is_dir() else None
             os.makedirs(os.path.join(root, job["cwd"]), exist_ok=True)
+            nodes, globs = survey(root, job.get("globs", []))
             os.chdir(os.path.join(root, job["cwd"]))
             del OPENS[:]
             signal.alarm(int(job.get("timeout", 20)))
@@ -179,6 +195,7 @@ def run_seq(seq, PyJMC, jmc_excs):
                 signal.alarm(0)
             res["opens"] = [rel(root, p) for p in OPENS]
             res["globs"] = globs
+            res["nodes"] = nodes
             out.append(res)
     finally:
         os.chdir(old_cwd)
